@@ -208,3 +208,115 @@ package goat
 //@   nopanic[C17.nopanic]
 //@   requires newConnection != nil
 //@   ensures[C17.dial_error_reported_not_started] bound("err") && err != nil ==> ncalls("send") == old(ncalls("send")) + 1 && ncalls("go:(*github.com/avos-io/goat.proxyClient).readWrite") == old(ncalls("go:(*github.com/avos-io/goat.proxyClient).readWrite"))
+
+// ---------------------------------------------------------------------------------
+// demultiplexer and channel transport
+
+//@ objinv[C18.objinv] goat.Demux : self.ctx != nil && self.rw != nil && self.conns.value != nil && self.demuxOn != nil && self.onNewConnection != nil && self.cancel != nil
+
+//@ lock goat.Demux.conns.Mutex guards conns.value
+//@   inv[C18.conn_table] forall k String :: k in self.conns.value ==> self.conns.value[k] != nil && self.conns.value[k].r != nil && self.conns.value[k].w != nil
+//@     | && !closed(self.conns.value[k].r) && !closed(self.conns.value[k].w) && self.conns.value[k].r != self.conns.value[k].w
+//@     | && tag(self.conns.value[k].r) == strId(k) && tag(self.conns.value[k].w) == strId(k)
+
+//@ func goat.(*Demux).newConnLocked
+//@   inline
+//@   holds goat.Demux.conns.Mutex
+//@   nopanic[C18.nopanic]
+//@   makechan 0 tag strId(id)
+//@   makechan 1 tag strId(id)
+//@   ensures[C18.created_and_announced_once] result != nil && id in gsd.conns.value && gsd.conns.value[id] == result
+//@     | && ncalls("go:fnfield:H.goat.Demux.onNewConnection") == old(ncalls("go:fnfield:H.goat.Demux.onNewConnection")) + 1
+
+//@ func goat.(*Demux).Run
+//@   nopanic[C18.nopanic]
+//@   loop 0 invariant[C18.run_loop] true
+//@   atcall[C18.handed_to_keys_connection] send : arg1 == rpc && bound("conn") && arg0 == conn.r && bound("id")
+
+//@ func goat.(*Demux).Cancel
+//@   nopanic[C18.nopanic]
+//@   ensures[C18.cancel_removes_key] !(id in gsd.conns.value)
+
+// writer goroutine of a logical connection: every envelope received on c.w is written once, unchanged
+//@ func goat.(*Demux).newConnLocked$1
+//@   nopanic[C18.nopanic]
+//@   captures[C18.writer_has_its_queue] c != nil && c.w != nil
+//@   loop 0 invariant[C18.writer_loop] true
+//@   atcall[C18.write_unchanged] (types.RpcReadWriter).Write : bound("rpc") && arg2 == rpc && arg1 == gsd.ctx
+
+// channel transport closures
+//@ func goat.NewGoatOverChannel$1
+//@   nopanic[C18.nopanic C19.nopanic]
+//@   ctxaware[C19.read_returns_on_ctx]
+//@   requires ctx != nil
+//@   ensures[C18.read_result_wellformed C19.read_result_wellformed] result.1 != nil ==> result.0 == nil
+//@   ensures[C19.closed_is_error C18.closed_is_error] bound("ok") && !ok ==> result.1 != nil
+
+//@ func goat.NewGoatOverChannel$2
+//@   nopanic[C18.nopanic C19.nopanic]
+//@   ctxaware[C19.write_returns_on_ctx]
+//@   requires ctx != nil
+//@   atcall[C19.write_hands_over_same_envelope C18.write_hands_over_same_envelope] send : arg1 == rpc
+//@   ensures[C19.write_once] result == nil ==> ncalls("send") == old(ncalls("send")) + 1
+
+// ---------------------------------------------------------------------------------
+// shipped transports: websocket, HTTP
+
+//@ func goat.(*goatOverWebsocket).Read
+//@   nopanic[C19.nopanic]
+//@   requires ws != nil && ws.conn != nil && ctx != nil
+//@   ensures[C19.ws_read_wellformed] (result.1 == nil) != (result.0 == nil)
+//@   ensures[C19.ws_non_binary_rejected] bound("typ") && typ != 2 ==> result.1 != nil
+//@   ensures[C19.ws_conn_error_reported] bound("err") && aftercall("websocket.Conn).Read", true) && ncalls("google.golang.org/protobuf/proto.Unmarshal") == old(ncalls("google.golang.org/protobuf/proto.Unmarshal")) ==> result.1 != nil
+//@   atcall[C19.ws_decodes_what_was_read] google.golang.org/protobuf/proto.Unmarshal : arg0 == data
+
+//@ func goat.(*goatOverWebsocket).Write
+//@   nopanic[C19.nopanic]
+//@   requires ws != nil && ws.conn != nil && ctx != nil
+//@   atcall[C19.ws_writes_binary_marshalled] (*github.com/coder/websocket.Conn).Write : arg1 == ctx && arg2 == 2 && arg3 == data
+//@   atcall[C19.ws_marshals_the_envelope] google.golang.org/protobuf/proto.Marshal : ifacePayload(arg0) == pkt
+//@   ensures[C19.ws_write_once] result == nil ==> ncalls("(*github.com/coder/websocket.Conn).Write") == old(ncalls("(*github.com/coder/websocket.Conn).Write")) + 1
+
+//@ objinv[C19.objinv] goat.GoatOverHttp : self.ctx != nil && self.conns.value != nil && self.onConnect != nil && self.sourceToAddress != nil && self.clock != nil && self.cancel != nil
+//@ objinv[C19.objinv] goat.httpReadWriter : self.readCh != nil && self.cancel != nil && self.clock != nil
+
+//@ lock goat.GoatOverHttp.conns.Mutex guards conns.value
+//@   inv[C19.http_conn_table] forall k String :: k in self.conns.value ==> self.conns.value[k] != nil && self.conns.value[k].readCh != nil && !closed(self.conns.value[k].readCh)
+//@     | && tag(self.conns.value[k].readCh) == strId(k) && self.conns.value[k].cancel != nil && self.conns.value[k].clock != nil && self.conns.value[k].writeAddr == k
+
+//@ func goat.(*GoatOverHttp).retrieve
+//@   nopanic[C19.nopanic]
+//@   makechan 0 tag strId(id)
+//@   ensures[C19.http_one_conn_per_source] result.0 != nil && result.0.readCh != nil && id in goh.conns.value && goh.conns.value[id] == result.0 && result.1 == !atlock(id in goh.conns.value)
+
+//@ func goat.(*GoatOverHttp).unregisterLocked
+//@   inline
+//@   holds goat.GoatOverHttp.conns.Mutex
+//@   nopanic[C19.nopanic]
+//@   ensures[C19.http_unregistered] !(id in goh.conns.value)
+
+//@ func goat.(*GoatOverHttp).unregister
+//@   nopanic[C19.nopanic]
+
+//@ func goat.(*GoatOverHttp).connectionCleaner
+//@   nopanic[C19.nopanic]
+//@   loop 0 invariant[C19.cleaner_loop] true
+//@   loop 1 invariant[C19.cleaner_loop] lockinv(goh, "goat.GoatOverHttp.conns.Mutex")
+
+//@ func goat.(*GoatOverHttp).ServeHTTP
+//@   nopanic[C19.nopanic]
+//@   requires w != nil && r != nil
+//@   ensures[C19.http_deliver_at_most_once] ncalls("send") <= old(ncalls("send")) + 1
+//@   ensures[C19.http_rejected_is_not_delivered] ncalls("net/http.Error") > old(ncalls("net/http.Error")) ==> ncalls("send") == old(ncalls("send"))
+//@   atcall[C19.http_delivers_decoded_envelope_with_source] send : arg1 == rpc && rpc.Header != nil && rpc.Header.Source != "" && bound("conn") && arg0 == conn.readCh
+
+//@ func goat.(*httpReadWriter).Read
+//@   nopanic[C19.nopanic]
+//@   ctxaware[C19.read_returns_on_ctx]
+//@   requires ctx != nil
+//@   ensures[C19.http_read_wellformed] (result.1 == nil) != (result.0 == nil) || (result.1 == nil && result.0 == nil)
+//@   ensures[C19.closed_is_error] bound("ok") && !ok ==> result.1 != nil
+
+//@ func goat.(*httpReadWriter).Write
+//@   nopanic[C19.nopanic]
+//@   requires ctx != nil
